@@ -138,15 +138,21 @@ pub trait BlockModeDecClosure: BlockSizeUser + Sized {
                 final(backend).abs_fut() == old(backend).abs_fut();
 }
 pub trait BlockCipherEncClosure: BlockSizeUser + Sized {
+    // what the closure needs from whoever hands it to a cipher (true for the mode crates; the `cts`
+    // closures need a well-formed buffer of at least one block, which their length gate establishes)
+    spec fn pre_c(&self) -> bool;
     #[verifier::prophetic]
     spec fn post_c(&self, enc: spec_fn(Blk) -> Blk) -> bool;
     fn call<B: BlockCipherEncBackend<BlockSize = Self::BlockSize>>(self, backend: &B)
+        requires self.pre_c()
         ensures self.post_c(backend.enc_fn());
 }
 pub trait BlockCipherDecClosure: BlockSizeUser + Sized {
+    spec fn pre_c(&self) -> bool;
     #[verifier::prophetic]
     spec fn post_c(&self, dec: spec_fn(Blk) -> Blk) -> bool;
     fn call<B: BlockCipherDecBackend<BlockSize = Self::BlockSize>>(self, backend: &B)
+        requires self.pre_c()
         ensures self.post_c(backend.dec_fn());
 }
 
@@ -154,6 +160,7 @@ pub trait BlockCipherDecClosure: BlockSizeUser + Sized {
 pub trait BlockCipherEncrypt: BlockSizeUser + Sized {
     spec fn enc_fn(&self) -> spec_fn(Blk) -> Blk;
     fn encrypt_with_backend<F: BlockCipherEncClosure<BlockSize = Self::BlockSize>>(&self, f: F)
+        requires f.pre_c()
         ensures f.post_c(self.enc_fn());
     fn encrypt_block(&self, block: &mut Block<Self>)
         ensures final(block)@ == self.enc_fn()(old(block)@);
@@ -163,6 +170,7 @@ pub trait BlockCipherEncrypt: BlockSizeUser + Sized {
 pub trait BlockCipherDecrypt: BlockSizeUser + Sized {
     spec fn dec_fn(&self) -> spec_fn(Blk) -> Blk;
     fn decrypt_with_backend<F: BlockCipherDecClosure<BlockSize = Self::BlockSize>>(&self, f: F)
+        requires f.pre_c()
         ensures f.post_c(self.dec_fn());
     fn decrypt_block(&self, block: &mut Block<Self>)
         ensures final(block)@ == self.dec_fn()(old(block)@);
